@@ -103,16 +103,7 @@ def check_imag(label, method, cfg, kind, mname, model, h, st, sname):
             rec["bad"] = bad[:3]
             fail("inexact/" + label, rec)
     else:
-        p = kind[1]
-        bad = []
-        for i in range(len(TAUS) - 1):
-            if errs[i + 1] > 1e-10 and hn * TAUS[i] <= 0.5 and errs[i] < 0.3:
-                ratio = errs[i] / errs[i + 1]
-                if ratio < 2 ** (p + 1 - 0.7):
-                    bad.append(("ratio", TAUS[i], ratio))
-        for t, e in zip(TAUS, errs):
-            if hn * t <= 0.5 and not e <= max(1e-9, 10 * (hn * t) ** (p + 1)):
-                bad.append(("size", t, e))
+        bad = order_verdict(TAUS, errs, kind[1], hn)
         if bad:
             rec["bad"] = bad[:4]
             fail("order/" + label, rec)
